@@ -997,6 +997,11 @@ func (l *lexer) scanRawToken() int {
 					return WORD
 				}
 				if len(l.stack) != 0 {
+					if len(l.stack) > 1 && l.stack[len(l.stack)-1] == ')' {
+						// a subshell that is still open cannot be closed by '`'
+						l.error(l.pos, "syntax error: unexpected '`', expecting ')'")
+						return -1
+					}
 					l.bquote = true
 					return ')'
 				}
